@@ -488,7 +488,7 @@ const rule = "Exhaustive: every digraph on <=4 nodes (thorough 5) x every root, 
 	"dominated by all others, -1 for root/unreachable; Dom inverts IDom (child lists must not share storage); DomFrontier as " +
 	"sets by definition (root membership ignored when the root has exactly one incoming edge), idom==nil path identical, no " +
 	"duplicates. Panics are violations; adjacency queries are counted and a budget of 1000*(V+E+1)^2 decides termination. " +
-	"Plus ladders of up to 21846 diamonds (65539 nodes, dominators in closed form) so that node ids cross the traversal mark set's growth steps. Panics and a 20 s watchdog per call (normal: microseconds) also decide termination. Non-trivial: a reachable node with >=2 reachable predecessors exists."
+	"Plus ladders of up to 21846 diamonds (65539 nodes, dominators in closed form) so that node ids cross the traversal mark set's growth steps. Panics and a 20 s watchdog per call (normal: microseconds) also decide termination. Non-trivial: a reachable node with >=2 reachable predecessors exists. Later additions: IDom on every 6-node digraph without self-loops and with out-degree <= 2 against a bit-set reference (TestSparseSix, under a watchdog); sparse 20..40-node graphs; slow-convergence regions (a chain entered a second time at its far end, retreating edges); other roots on the same graph value; CSR storage compared afterwards."
 
 func TestSmallExhaustive(t *testing.T) {
 	if ev.Replaying() {
